@@ -71,7 +71,7 @@ def run(chk, ctx) -> None:
     # is not set (the phase ends exactly when no flag is left), and with an actor either the bring-in or a check/call is
     # possible (fold / check-call refuse exactly on "no actor" and "bring-in pending", the bring-in exactly on the converse)
     from .cover import flag_verifiers
-    flag_verifiers(Refile(chk, {'C08.flag_verifiers': 'C07.available'}), ctx)
+    flag_verifiers(Refile(chk, {'C08.flag_verifiers': 'C07.available'}), ctx, availability_only=True)
     from . import c03 as _c03
     re3 = Refile(chk, {'C03.S8': 'C07.available'})
     _c03._simple_verifiers(re3, ctx)
